@@ -256,6 +256,9 @@ def _job_ranges(job):
                 "if-range-same": f"If-Range: {http_date(MTIME)}\r\n",
                 "if-range-older": f"If-Range: {http_date(MTIME - 100)}\r\n",
                 "if-range-newer": f"If-Range: {http_date(MTIME + 100)}\r\n",
+                "if-range-etag-same": f"If-Range: {etag}\r\n",
+                "if-range-etag-other": 'If-Range: "does-not-match"\r\n',
+                "if-range-etag-weak": f"If-Range: W/{etag}\r\n",        # RFC 9110 13.1.5: strong comparison, a weak tag never matches
                 "if-none-match-hit": f"If-None-Match: {etag}\r\n",
                 "if-none-match-miss": 'If-None-Match: "nope"\r\n',
                 "if-none-match-star": "If-None-Match: *\r\n",
@@ -310,7 +313,7 @@ def judge_range(part, case, r, data, spec, cname, method):
             V("body-with-304-412", f"{len(body)} body bytes with status {status}")
         return
     # ---- which range applies
-    use_range = spec is not None and cname != "if-range-older"
+    use_range = spec is not None and cname not in ("if-range-older", "if-range-etag-other", "if-range-etag-weak")
     ref = range_ref(spec, size) if use_range else ("whole",)
     cl = hdr.get("content-length")
     cr = hdr.get("content-range")
@@ -351,7 +354,7 @@ def judge_range(part, case, r, data, spec, cname, method):
         V("head-with-body", f"{len(body)} body bytes in answer to HEAD")
 
 
-CONDS = ["none", "if-range-same", "if-range-older", "if-range-newer", "if-none-match-hit", "if-none-match-miss", "if-none-match-star", "if-match-hit",
+CONDS = ["none", "if-range-same", "if-range-older", "if-range-newer", "if-range-etag-same", "if-range-etag-other", "if-range-etag-weak", "if-none-match-hit", "if-none-match-miss", "if-none-match-star", "if-match-hit",
          "if-match-miss", "if-modified-since-same", "if-modified-since-older", "if-unmodified-since-same", "if-unmodified-since-older"]
 
 
